@@ -134,6 +134,7 @@ func (ch *channel) Send(ctx async.Context, data []byte) status.Status {
 	if s.closed.Load() {
 		return statusChannelClosed
 	}
+	verifYield(6)
 
 	// If opened, send data
 	if s.opened.Load() {
@@ -179,6 +180,7 @@ func (ch *channel) SendAndClose(ctx async.Context, data []byte) status.Status {
 		// Closing cancels the channel context, which is the context handlers pass here,
 		// so closing first could drop the close message when the write queue is full.
 		st := s.sender.sendClose(ctx, data)
+		verifYield(7)
 		s.close()
 		return st
 	}
@@ -213,6 +215,7 @@ func (ch *channel) Receive(ctx async.Context) ([]byte, status.Status) {
 		case ok:
 			return data, status.OK
 		}
+		verifYield(1)
 
 		// Await new message or close
 		select {
@@ -294,6 +297,7 @@ func (ch *channel) Free() {
 	}
 
 	ch.closeUser()
+	verifYield(8)
 	ch.release()
 }
 
@@ -361,6 +365,7 @@ func (ch *channel) tryAcquire() (*channelState, bool) {
 		if refs <= 0 {
 			return nil, false
 		}
+		verifYield(3)
 		if ch.refs.CompareAndSwap(refs, refs+1) {
 			break
 		}
